@@ -363,6 +363,106 @@ Proof.
     rewrite (enc_fcomps_read _ _ _ _ Hb Hwf (le_n _)). reflexivity.
 Qed.
 
+(* ------------------------------------------------------------------ MUP *)
+Lemma teid_prefix_read teid (k : nat) :
+  teid < 4294967296 -> (k <= 4)%nat -> teid mod 256 ^ (4 - N.of_nat k) = 0 ->
+  rdn (firstn k (be32 teid) ++ zeros (4 - k)) 0 = teid.
+Proof.
+  intros Ht Hk Hm. unfold be32.
+  destruct k as [|[|[|[|[|k]]]]]; try lia; cbn [firstn app zeros repeat Nat.sub rdn N.of_nat Pos.of_succ_nat Pos.succ] in *.
+  - change (256 ^ (4 - 0)) with 4294967296 in Hm. rewrite N.mod_small in Hm by exact Ht. lia.
+  - change (256 ^ (4 - 1)) with 16777216 in Hm.
+    pose proof (N.div_mod teid 16777216 ltac:(lia)) as Hd. rewrite Hm in Hd.
+    rewrite (N.mod_small (teid / 16777216)) by (apply N.div_lt_upper_bound; lia). lia.
+  - change (256 ^ (4 - 2)) with 65536 in Hm.
+    pose proof (N.div_mod teid 65536 ltac:(lia)) as Hd. rewrite Hm in Hd.
+    assert (Hq : teid / 65536 < 65536) by (apply N.div_lt_upper_bound; lia).
+    pose proof (be16_rd16 (teid / 65536) Hq) as Hb. rewrite N.div_div in Hb by lia. change (65536 * 256) with 16777216 in Hb. lia.
+  - change (256 ^ (4 - 3)) with 256 in Hm.
+    pose proof (N.div_mod teid 256 ltac:(lia)) as Hd. rewrite Hm in Hd.
+    assert (Hq : teid / 256 < 16777216) by (apply N.div_lt_upper_bound; lia).
+    pose proof (be24_rd24 (teid / 256) Hq) as Hb. rewrite !N.div_div in Hb by lia.
+    change (256 * 65536) with 16777216 in Hb. change (256 * 256) with 65536 in Hb. lia.
+  - pose proof (be32_rd32 teid Ht). lia.
+Qed.
+
+Lemma mup_prefix_sig pl a w : blen a = w -> pl <= 8 * w -> mup_prefix pl a = sig_octets pl a /\ blen (sig_octets pl a) = (pl + 7) / 8.
+Proof.
+  intros Ha Hpl. unfold mup_prefix, sig_octets. change (len a) with (blen a).
+  assert (Hle : (pl + 7) / 8 <= blen a).
+  { rewrite Ha. assert ((pl + 7) / 8 < w + 1) by (apply N.div_lt_upper_bound; lia). lia. }
+  rewrite N.min_l by exact Hle. split; [reflexivity | apply sig_octets_blen; exact Hle].
+Qed.
+
+Ltac blen_norm := repeat (rewrite blen_app || rewrite blen_cons); change (blen (@nil N)) with 0.
+
+Ltac mup_frame body Hlen :=
+  unfold read_mup, be16; cbn [app]; change (len body) with (blen body);
+  rewrite (trunc8_small _ Hlen), take_app, be16_rd16 by lia; cbn [N.eqb Pos.eqb].
+
+Lemma read_mup_enc v6 m enc rest :
+  enc_mup m = Ok enc -> mup_wf v6 m ->
+  read_mup v6 (enc ++ rest) = Some (canon_struct (NMup m), rest).
+Proof.
+  intros He Hwf. unfold enc_mup in He. apply bind_ok in He as [[ty body] [Hb He]]. cbn [fst snd] in He.
+  apply Ok_inj in He. subst enc. unfold mup_wf in Hwf.
+  set (w := if v6 then 16 else 4) in *.
+  assert (Hw : w = 4 \/ w = 16) by (subst w; destruct v6; auto).
+  destruct m as [rd pl a | rd a | rd pl a teid qfi ep src | rd el ep teid]; cbn [canon_struct].
+  - destruct Hwf as [Hrd [Hpl Ha]]. apply Ok_inj in Hb. apply pair_equal_spec in Hb as [Hty Hbody]. subst ty.
+    destruct (mup_prefix_sig pl a _ Ha Hpl) as [Hp Hps]. rewrite Hp in Hbody.
+    assert (Hlen : blen body < 256).
+    { subst body. blen_norm. rewrite Hrd, Hps.
+      assert ((pl + 7) / 8 < 17) by (apply N.div_lt_upper_bound; lia). lia. }
+    mup_frame body Hlen. fold w. subst body.
+    ev_fields [rd; [pl]] (sig_octets pl a).
+    replace (pl <=? 8 * w) with true by (symmetry; apply N.leb_le; exact Hpl).
+    rewrite Hps, N.eqb_refl. reflexivity.
+  - destruct Hwf as [Hrd Ha]. apply Ok_inj in Hb. apply pair_equal_spec in Hb as [Hty Hbody]. subst ty.
+    assert (Hlen : blen body < 256) by (subst body; blen_norm; rewrite Hrd, Ha; lia).
+    mup_frame body Hlen. fold w. subst body.
+    rewrite (takes_fields _ [rd; a] (@nil N)); [reflexivity | cbn [map]; rewrite Hrd, Ha; reflexivity | cbn [concat]; rewrite ?app_nil_r; reflexivity].
+  - destruct Hwf as [Hrd [Hpl [Ha [Ht [Hep Hsrc]]]]]. apply Ok_inj in Hb. apply pair_equal_spec in Hb as [Hty Hbody]. subst ty.
+    destruct (mup_prefix_sig pl a _ Ha Hpl) as [Hp Hps]. rewrite Hp in Hbody.
+    set (tail := match src with None => [0] | Some s => [8 * len s] ++ s end) in *.
+    assert (Htl : blen tail <= 17).
+    { subst tail. destruct src as [s|]; [rewrite blen_app, Hsrc; change (blen [8 * len s]) with 1; lia | cbn; lia]. }
+    assert (Hlen : blen body < 256).
+    { subst body. unfold be32. blen_norm. rewrite Hrd, Hps, Hep.
+      assert ((pl + 7) / 8 < 17) by (apply N.div_lt_upper_bound; lia). lia. }
+    mup_frame body Hlen. fold w. subst body.
+    ev_fields [rd; [pl]] (sig_octets pl a ++ be32 teid ++ [qfi] ++ [8 * len ep] ++ ep ++ tail).
+    replace (pl <=? 8 * w) with true by (symmetry; apply N.leb_le; exact Hpl).
+    rewrite (takes_fields _ [sig_octets pl a; be32 teid; [qfi]; [8 * len ep]] (ep ++ tail));
+      [| cbn [map]; rewrite Hps; reflexivity | cbn [concat]; rewrite ?app_nil_r, <- ?app_assoc; reflexivity].
+    change (len ep) with (blen ep). rewrite Hep, N.eqb_refl.
+    subst tail. destruct src as [s|].
+    + change (len s) with (blen s). rewrite Hsrc.
+      rewrite (takes_fields _ [ep; [8 * w]] s); [| cbn [map]; rewrite Hep; reflexivity | cbn [concat]; rewrite ?app_nil_r, <- ?app_assoc; reflexivity].
+      replace (8 * w =? 0) with false by (symmetry; apply N.eqb_neq; lia).
+      rewrite N.eqb_refl, Hsrc, N.eqb_refl. cbn [andb]. rewrite rdn_be32 by exact Ht. reflexivity.
+    + rewrite (takes_fields _ [ep; [0]] (@nil N)); [| cbn [map]; rewrite Hep; reflexivity | cbn [concat]; rewrite ?app_nil_r, <- ?app_assoc; reflexivity].
+      cbn [N.eqb]. rewrite rdn_be32 by exact Ht. reflexivity.
+  - destruct Hwf as [Hrd [Hep [Hlo [Hhi [Ht Hz]]]]]. change (len ep) with (blen ep) in Hb. rewrite Hep in Hb.
+    set (tb := (el - 8 * w + 7) / 8) in *.
+    assert (Htb : tb <= 4).
+    { subst tb. assert ((el - 8 * w + 7) / 8 < 5) by (apply N.div_lt_upper_bound; lia). lia. }
+    replace (tb <=? 4) with true in Hb by (symmetry; apply N.leb_le; exact Htb).
+    apply Ok_inj in Hb. apply pair_equal_spec in Hb as [Hty Hbody]. subst ty.
+    set (tbytes := firstn (N.to_nat tb) (be32 teid)) in *.
+    assert (Hl : length tbytes = N.to_nat tb) by (subst tbytes; rewrite firstn_length; cbn [be32 length]; lia).
+    assert (Hbl : blen tbytes = tb) by (unfold blen; rewrite Hl; lia).
+    assert (Hlen : blen body < 256).
+    { subst body. blen_norm. rewrite Hrd, Hep, Hbl. lia. }
+    mup_frame body Hlen. fold w. subst body.
+    ev_fields [rd; [el]] (ep ++ tbytes).
+    replace ((8 * w <=? el) && (el <=? 8 * w + 32)) with true
+      by (symmetry; apply andb_true_intro; split; apply N.leb_le; assumption).
+    rewrite (takes_fields _ [ep] tbytes); [| cbn [map]; rewrite Hep; reflexivity | cbn [concat]; rewrite ?app_nil_r; reflexivity].
+    fold tb. rewrite Hbl, N.eqb_refl. rewrite Hl. subst tbytes.
+    rewrite teid_prefix_read; [reflexivity | exact Ht | lia |]. rewrite Nnat.N2Nat.id. exact Hz.
+Qed.
+
 (* ------------------------------------------------------------------ one entry, any structured kind *)
 Lemma read_struct_enc p k n (wd : bool) (nb rest : list N) pid :
   structured k (pid, n) ->
@@ -373,7 +473,7 @@ Proof.
   assert (He' : enc_nlri p n = Ok nb).
   { destruct wd; [|exact He]. destruct n; try exact He; destruct k; contradiction. }
   clear He.
-  destruct k as [v6 vpn | | |]; destruct n; try contradiction; cbn [read_struct canon_struct].
+  destruct k as [v6 vpn | | | | v6m]; destruct n; try contradiction; cbn [read_struct].
   - destruct Hs as [-> [Hrd [Hwf Hsz]]].
     split; [eapply read_flow_enc; eassumption|].
     cbn [enc_nlri] in He'. apply bind_ok in He' as [body [_ He']]. apply Ok_inj in He'. subst nb.
@@ -384,6 +484,8 @@ Proof.
     split; [apply read_evpn_enc; exact Hs | unfold enc_evpn; destruct e; cbn [app length]; lia].
   - cbn [enc_nlri] in He'. apply Ok_inj in He'. subst nb. destruct Hs as [Hd [Hc Hep]].
     split; [apply read_srp_enc; assumption | cbn [app length]; lia].
+  - cbn [enc_nlri] in He'. split; [eapply read_mup_enc; eassumption|].
+    unfold enc_mup in He'. apply bind_ok in He' as [r [_ He']]. apply Ok_inj in He'. subst nb. cbn [app length]. lia.
 Qed.
 
 Lemma read_items_nil k fuel ap : read_items k fuel ap [] = Some [].
@@ -461,6 +563,8 @@ Definition ex_ev2 : pnlri := (1, NEvpn (Ev2 ex_rd (repeat 9 10) 5 [2; 0; 0; 0; 0
 Definition ex_ev5 : pnlri := (2, NEvpn (Ev5 ex_rd (repeat 0 10) 0 64 (pat_bytes 16 1) (pat_bytes 16 2) 16777215)).
 Definition ex_rtc : pnlri := (3, NRtc (RtcExact 65001 [0; 2; 253; 232; 0; 0; 0; 1])).
 Definition ex_srp : pnlri := (4, NSrp 1 100 [192; 0; 2; 1]).
+Definition ex_mup3 : pnlri := (5, NMup (Mup3 ex_rd 24 [10; 1; 2; 0] 4096 9 [192; 0; 2; 1] (Some [198; 51; 100; 7]))).
+Definition ex_mup4 : pnlri := (6, NMup (Mup4 ex_rd 48 [192; 0; 2; 1] 16909056)).
 
 Ltac num_goal :=
   first [ reflexivity | exact I | discriminate | (intros Hx; discriminate Hx)
@@ -468,7 +572,7 @@ Ltac num_goal :=
 
 Example ex_structured :
   structured (SFlow true true) ex_fs /\ structured SEvpn ex_ev2 /\ structured SEvpn ex_ev5 /\
-  structured SRtc ex_rtc /\ structured SSrp ex_srp.
+  structured SRtc ex_rtc /\ structured SSrp ex_srp /\ structured (SMup false) ex_mup3 /\ structured (SMup false) ex_mup4.
 Proof.
   split.
   { split; [reflexivity|]. cbn [snd ex_fs structured]. split; [reflexivity|]. split; [split; reflexivity|]. split.
@@ -476,6 +580,8 @@ Proof.
       constructor; [vm_compute; repeat split; num_goal|].
       constructor; [vm_compute; repeat split; num_goal | constructor].
     - vm_compute. reflexivity. }
+  split; [split; [reflexivity | vm_compute; repeat split; num_goal]|].
+  split; [split; [reflexivity | vm_compute; repeat split; num_goal]|].
   split; [split; [reflexivity | vm_compute; repeat split; num_goal]|].
   split; [split; [reflexivity | vm_compute; repeat split; num_goal]|].
   split; [split; [reflexivity | vm_compute; repeat split; num_goal]|].
